@@ -38,6 +38,13 @@ type Point struct {
 
 type Inner struct{ Depth int }
 
+type Alias = Inner
+
+type Holder struct {
+	Alias
+	X int
+}
+
 type shape interface {
 	area() int
 	Name() string
@@ -219,15 +226,23 @@ func main() {
 const c13Path = "example.com/m"
 
 // c13Engine installs a go list result for one package whose only file is src.
+// c13Tag is a build tag given to every command; c13Tagged is the file it enables.
+const c13Tag = "-tags=c13tag"
+
+func c13Tagged(pkgName string) string {
+	return "//go:build c13tag\n\npackage " + pkgName + "\n\nvar Tagged struct{ On bool }\n"
+}
+
 func c13Engine(pkgName, src string, toObfuscate bool, id []byte) *listedPackage {
 	dir := symx.FSRoot() + "/m"
 	symx.FSMkdir(dir)
 	symx.FSWriteFile(dir+"/a.go", src)
+	symx.FSWriteFile(dir+"/t.go", c13Tagged(pkgName))
 	lpkg := &listedPackage{
 		Name:            pkgName,
 		ImportPath:      c13Path,
 		Dir:             dir,
-		CompiledGoFiles: []string{"a.go"},
+		CompiledGoFiles: []string{"a.go", "t.go"}, // what go list -tags=c13tag reports
 		ToObfuscate:     toObfuscate,
 	}
 	copy(lpkg.GarbleActionID[:], id)
@@ -247,6 +262,7 @@ func c13Native(pkgName, src string, toObfuscate bool) (restore func()) {
 	symx.FSMkdir(dir + "/other")
 	symx.FSWriteFile(dir+"/go.mod", "module "+c13Path+"\n\ngo "+strings.TrimPrefix(runtime.Version(), "go")+"\n")
 	symx.FSWriteFile(dir+"/a.go", src)
+	symx.FSWriteFile(dir+"/t.go", c13Tagged(pkgName))
 	symx.FSWriteFile(dir+"/other/o.go", "package other\n\nfunc O() {}\n")
 	symx.FSMkdir(symx.FSRoot() + "/cache")
 	wd, _ := os.Getwd()
@@ -265,6 +281,14 @@ func c13Native(pkgName, src string, toObfuscate bool) (restore func()) {
 	}
 }
 
+// c13GoList stands in for toolexecCmd inside the engine: the listing is the one
+// c13Engine installed for exactly these arguments, so they must arrive.
+func c13GoList(command string, args []string) (*exec.Cmd, error) {
+	symx.Assert(command == "list" && len(args) == 2 && args[0] == c13Tag && args[1] == "./...",
+		"the command hands its build flags and package patterns to go list")
+	return nil, nil
+}
+
 // c13Map runs the real commandMap. In the engine `go list` and the JSON encoder
 // are cut off: the listing is the one installed by c13Engine and the value
 // handed to the encoder is returned. Natively the command runs for real and its
@@ -272,14 +296,12 @@ func c13Native(pkgName, src string, toObfuscate bool) (restore func()) {
 func c13Map() (map[string]mapPackage, error) {
 	var out map[string]mapPackage
 	if symx.Symbolic() {
-		symx.Stub("mvdan.cc/garble.toolexecCmd", func(command string, args []string) (*exec.Cmd, error) {
-			return nil, nil
-		})
+		symx.Stub("mvdan.cc/garble.toolexecCmd", c13GoList)
 		symx.Stub("(*encoding/json.Encoder).Encode", func(e *json.Encoder, v any) error {
 			out = v.(map[string]mapPackage)
 			return nil
 		})
-		err := commandMap([]string{"./..."})
+		err := commandMap([]string{c13Tag, "./..."})
 		symx.Unstub("mvdan.cc/garble.toolexecCmd")
 		symx.Unstub("(*encoding/json.Encoder).Encode")
 		return out, err
@@ -289,7 +311,7 @@ func c13Map() (map[string]mapPackage, error) {
 		return nil, err
 	}
 	os.Stdout = f
-	err = commandMap([]string{"./..."})
+	err = commandMap([]string{c13Tag, "./..."})
 	f.Close()
 	if err != nil {
 		return nil, err
@@ -308,9 +330,7 @@ func c13Reverse(names, want []string) ([]bool, error) {
 	res := make([]bool, len(names))
 	if symx.Symbolic() {
 		var pairs []string
-		symx.Stub("mvdan.cc/garble.toolexecCmd", func(command string, args []string) (*exec.Cmd, error) {
-			return nil, nil
-		})
+		symx.Stub("mvdan.cc/garble.toolexecCmd", c13GoList)
 		symx.Stub("strings.NewReplacer", func(oldnew ...string) *strings.Replacer {
 			pairs = oldnew
 			return nil
@@ -318,7 +338,7 @@ func c13Reverse(names, want []string) ([]bool, error) {
 		symx.Stub("mvdan.cc/garble.reverseContent", func(w io.Writer, r io.Reader, repl *strings.Replacer) (bool, error) {
 			return true, nil
 		})
-		err := commandReverse([]string{"./..."})
+		err := commandReverse([]string{c13Tag, "./..."})
 		symx.Unstub("mvdan.cc/garble.toolexecCmd")
 		symx.Unstub("strings.NewReplacer")
 		symx.Unstub("mvdan.cc/garble.reverseContent")
@@ -348,7 +368,7 @@ func c13Reverse(names, want []string) ([]bool, error) {
 		return nil, err
 	}
 	os.Stdin, os.Stdout = in, f
-	err = commandReverse([]string{"./..."})
+	err = commandReverse([]string{c13Tag, "./..."})
 	f.Close()
 	if _, ok := err.(errJustExit); ok {
 		err = nil // exit status 1: nothing was modified
@@ -369,10 +389,26 @@ func c13Reverse(names, want []string) ([]bool, error) {
 
 // c13BuildView prepares the type information the way transformCompile does
 // (absolute paths, main-package patch, optional SSA info) and obfuscates the file.
-func c13BuildView(lpkg *listedPackage, withSSAInfo bool) (*transformer, *ast.File, map[*ast.Ident]string) {
+func c13BuildView(lpkg *listedPackage, withSSAInfo bool) (*transformer, []*ast.File, map[*ast.Ident]string) {
 	reflectPatchFile = ""
+	// The compile step runs in a toolexec sub-process, which receives the seed
+	// as the text of the -seed flag: it must be the same seed. (Decided once
+	// here; the names below are then computed from the parent's bytes, which
+	// keeps the hash inputs of the three views syntactically equal.)
+	if flagSeed.present() {
+		var child seedFlag
+		err := child.Set(flagSeed.String())
+		symx.Assert(err == nil && bytesEq(child.bytes, flagSeed.bytes), "the toolexec sub-process parses the -seed it is given into the same seed")
+	}
 	tf := &transformer{curPkg: lpkg, origImporter: importerForPkg(lpkg)}
-	files, err := parseFiles(lpkg, "", []string{lpkg.Dir + "/a.go"}, true)
+	var paths []string
+	for _, name := range lpkg.CompiledGoFiles {
+		if !strings.HasPrefix(name, "/") {
+			name = lpkg.Dir + "/" + name
+		}
+		paths = append(paths, name)
+	}
+	files, err := parseFiles(lpkg, "", paths, true)
 	if err != nil {
 		symx.Fail("build view: parse: " + err.Error())
 		return nil, nil, nil
@@ -387,8 +423,17 @@ func c13BuildView(lpkg *listedPackage, withSSAInfo bool) (*transformer, *ast.Fil
 	for id := range tf.info.Defs {
 		orig[id] = id.Name
 	}
-	file := tf.transformGoFile(files[0])
-	return tf, file, orig
+	for i, file := range files {
+		files[i] = tf.transformGoFile(file)
+	}
+	return tf, files, orig
+}
+
+// c13Injected reports whether id belongs to the reflect helper code that the
+// build appends to the first file of a main package.
+func c13Injected(id *ast.Ident, src string) bool {
+	p := fset.Position(id.Pos())
+	return strings.HasSuffix(p.Filename, "/a.go") && p.Offset >= len(src)
 }
 
 // c13HashSummary stands in for hashWithCustomSalt inside the engine: a
@@ -419,10 +464,15 @@ func (s identsByPos) Len() int           { return len(s) }
 func (s identsByPos) Less(i, j int) bool { return s[i].Pos() < s[j].Pos() }
 func (s identsByPos) Swap(i, j int)      { s[i], s[j] = s[j], s[i] }
 
+func sortIdents(ids identsByPos) { sort.Sort(ids) }
+
 func H_C13_map_build_reverse() {
 	flagSeed = seedFlag{}
-	if symx.Choose(2) == 1 {
+	switch symx.Choose(tier(2, 3)) {
+	case 1:
 		flagSeed = seedFlag{bytes: symx.Bytes("seed", 8)}
+	case 2:
+		flagSeed = seedFlag{bytes: symx.Bytes("seed", 12)}
 	}
 	symx.Stub("mvdan.cc/garble.hashWithCustomSalt", c13HashSummary)
 	symx.DigestPrefixFree(5) // the bytes c13HashSummary uses
@@ -518,7 +568,7 @@ func H_C13_map_build_reverse() {
 		if parent := obj.Parent(); parent != nil && parent != tf.pkg.Scope() {
 			continue // local
 		}
-		if fset.Position(id.Pos()).Offset >= len(s.src) {
+		if c13Injected(id, s.src) {
 			continue // the reflect helper code appended to a main package
 		}
 		p, err := enc.For(obj)
